@@ -222,7 +222,14 @@ const BIG: f64 = 1048576.0;
 /// One particle, one dimension. `c1`, `c2` concrete per harness (one-product variants); the stored
 /// inertia weight is symbolic and DIFFERENT from the constructor's weight.
 fn velocity(c1: f64, c2: f64, check_formula: bool) {
-    let (x, v, xp, xg, w) = (sym::f64(), sym::f64(), sym::f64(), sym::f64(), sym::f64());
+    velocity_w(c1, c2, check_formula, None)
+}
+fn velocity_w(c1: f64, c2: f64, check_formula: bool, fixed_w: Option<f64>) {
+    let (x, v, xp, xg) = (sym::f64(), sym::f64(), sym::f64(), sym::f64());
+    let w = match fixed_w {
+        Some(w) => w,
+        None => sym::f64(),
+    };
     sym::assume(x.abs() <= BIG && v.abs() <= BIG && xp.abs() <= BIG && xg.abs() <= BIG && w >= 0.0 && w <= 4.0);
     let vmax = 2.0;
     let c = match PVU::from_params(123.0, c1, c2, vmax) {
@@ -268,6 +275,12 @@ fn velocity(c1: f64, c2: f64, check_formula: bool) {
 #[cfg_attr(kani, kani::unwind(4))]
 pub fn h_c18_velocity_inertia_only() {
     velocity(0.0, 0.0, true)
+}
+/// @h tier=quick bound="1 particle x 1 dimension, c1 = c2 = 0, STORED weight 0.5 (constructor weight 123), magnitudes <= 2^20: clamp, move-by-velocity, stored weight used" unwind=4 cost=7 mem=16 timeout=900
+#[cfg_attr(kani, kani::proof)]
+#[cfg_attr(kani, kani::unwind(4))]
+pub fn h_c18_velocity_stored_half() {
+    velocity_w(0.0, 0.0, true, Some(0.5))
 }
 /// @h tier=thorough bound="1 particle x 1 dimension, c1 = 1.5, c2 = 0" unwind=4 cost=9 mem=28 timeout=3000
 #[cfg_attr(kani, kani::proof)]
